@@ -139,7 +139,29 @@ def lsp_session(wd, tcp, default_paths, rng, label):
         with open(a, "w") as f:
             f.write(ta + "\nMore text with a gardden.")
         s.save(uri_for(a))
-        acts = s.code_actions(uri_for(a), 2, 10)
+        # code actions at every position of the line with the link and the e-mail address
+        acts = []
+        cur_a = ta + "\nMore text with a gardden."
+        for ln, line in enumerate(cur_a.split("\n")):
+            col = 0
+            for ch in line + " ":
+                if ln == 2 or col % 7 == 0:
+                    acts += s.code_actions(uri_for(a), ln, col)
+                col += client.utf16_len(ch)
+        # documents whose URI is not a plain local file
+        exotic = ["vscode-remote://ssh-remote+box" + os.path.join(wd, "remote", "notes.md"), "vscode-vfs://github/owner/repo" + os.path.join(wd, "vfs", "readme.md"),
+                  "file://otherhost" + os.path.join(wd, "hosted", "x.md"), "untitled:" + os.path.join(wd, "unt", "y.md")]
+        for u in exotic:
+            s.notify("textDocument/didOpen", {"textDocument": {"uri": u, "languageId": "markdown", "version": 1, "text": "A remote buffer with a flibbertigibbetish word."}})
+            time.sleep(0.15)
+            for cmd in ("HarperAddToFileDict", "HarperAddToUserDict"):
+                try:
+                    s.command(cmd, ["flibbertigibbetish", u])
+                except (client.Timeout, client.ServerDied):
+                    raise
+            s.notify("textDocument/didSave", {"textDocument": {"uri": u}})
+            s.notify("textDocument/didClose", {"textDocument": {"uri": u}})
+        time.sleep(0.3)
         s.command("HarperAddToUserDict", ["tset", uri_for(a)])
         s.command("HarperAddToFileDict", ["gardden", uri_for(a)])
         for act in acts:
